@@ -5,7 +5,7 @@ ID="$1"; PROP="$2"; shift 2
 WT=/tmp/seedwt_$ID
 git -C /repo worktree remove --force $WT >/dev/null 2>&1
 git -C /repo worktree add -q --detach $WT HEAD || exit 9
-( cd $WT && git apply /verif/seeded/$ID/patch.diff ) || { echo "patch does not apply"; git -C /repo worktree remove --force $WT; exit 9; }
+( cd $WT && ( git apply /verif/seeded/$ID/patch.diff 2>/dev/null || git apply -3 /verif/seeded/$ID/patch.diff ) ) || { echo "patch does not apply"; git -C /repo worktree remove --force $WT; exit 9; }
 cd /verif
 VK_REPO=$WT VK_EVIDENCE_DIR=/tmp/seed_evidence ./check "$PROP" "$@" > /tmp/seedtest_$ID.log 2>&1
 rc=$?
